@@ -42,7 +42,7 @@ static void lattice_transform(TSGT *s, TypeOneDRule rule, int ai, int k){
 //@ lemma lemma_roundtrip
 void lemma_roundtrip(int rule_i, int ai, int k, int xi)
 __CPROVER_requires(rule_i >= rule_none && rule_i <= rule_fourier && FAMILY(rule_i))
-__CPROVER_requires(-(1 << LB) <= ai && ai <= (1 << LB) && 0 <= k && k <= 10 && -(1 << LX) <= xi && xi <= (1 << LX))
+__CPROVER_requires(-(1 << LB) <= ai && ai <= (1 << LB) && 0 <= k && k <= KMAX && -(1 << LX) <= xi && xi <= (1 << LX))
 __CPROVER_ensures(1)
 __CPROVER_assigns(tsg_exc)
 {
@@ -78,7 +78,7 @@ void h_lemma_roundtrip(void){ int a_rule = nondet_int(), a_a = nondet_int(), a_k
 //@ lemma lemma_qscale
 void lemma_qscale(int rule_i, int a0, int k0, int a1, int k1)
 __CPROVER_requires(rule_i >= rule_none && rule_i <= rule_fourier && FAMILY(rule_i))
-__CPROVER_requires(-(1 << LB) <= a0 && a0 <= (1 << LB) && 0 <= k0 && k0 <= 10 && -(1 << LB) <= a1 && a1 <= (1 << LB) && 0 <= k1 && k1 <= 10)
+__CPROVER_requires(-(1 << LB) <= a0 && a0 <= (1 << LB) && 0 <= k0 && k0 <= KMAX && -(1 << LB) <= a1 && a1 <= (1 << LB) && 0 <= k1 && k1 <= KMAX)
 __CPROVER_ensures(1)
 __CPROVER_assigns(g_npow, __CPROVER_object_whole(g_pow_base), __CPROVER_object_whole(g_pow_exp))
 {
@@ -109,3 +109,38 @@ __CPROVER_assigns(g_npow, __CPROVER_object_whole(g_pow_base), __CPROVER_object_w
 }
 //@ harness h_lemma_qscale
 void h_lemma_qscale(void){ int a_rule = nondet_int(), a_a0 = nondet_int(), a_k0 = nondet_int(), a_a1 = nondet_int(), a_k1 = nondet_int(); lemma_qscale(a_rule, a_a0, a_k0, a_a1, a_k1); __CPROVER_assert(0, "VACUITY-CANARY"); }
+
+//@ text2
+/* chain rule at grid level (C10 / C05): every entry of the canonical Jacobian (outputs x dimensions, row-major)
+ * is multiplied exactly once by the diagonal entry of ITS dimension; nothing else is written.
+ * The product is an uninterpreted function (rule R13) whose evaluations are logged: the obligation is about the indexing. */
+#define CH_ND 2
+#ifndef CH_NO
+#define CH_NO 2
+#endif
+#define CH_N (CH_ND * CH_NO)
+double cl_a[CH_N], cl_b[CH_N], cl_r[CH_N]; int cl_n;
+double tsg_fmul(double a, double b){
+  double r = nondet_double();
+  __CPROVER_assert(cl_n < CH_N, "L10b-grid at most one product per Jacobian entry");
+  if (cl_n < CH_N) { cl_a[cl_n] = a; cl_b[cl_n] = b; cl_r[cl_n] = r; }
+  cl_n++; return r;
+}
+//@ harness h_chain
+void h_chain(void){
+  int a_nd = nondet_int(), a_no = nondet_int();
+  __CPROVER_assume(a_nd >= 1 && a_nd <= CH_ND && a_no >= 0 && a_no <= CH_NO);
+  double jac[2 * CH_N], in[2 * CH_N], diag[CH_ND];
+  for (int q = 0; q < 2 * CH_N; q++) { in[q] = nondet_double(); jac[q] = in[q]; }
+  for (int q = 0; q < CH_ND; q++) diag[q] = nondet_double();
+  cl_n = 0;
+  CHAIN(a_nd, a_no, jac, diag);
+  __CPROVER_assert(cl_n == a_nd * a_no, "L10b-grid exactly one product per entry of the outputs x dimensions Jacobian");
+  for (int k = 0; k < CH_NO; k++) for (int j = 0; j < CH_ND; j++) if (k < a_no && j < a_nd) {
+    bool found = false;
+    for (int q = 0; q < CH_N; q++) if (q < cl_n && TSG_SAME(cl_a[q], in[k * a_nd + j]) && TSG_SAME(cl_b[q], diag[j]) && TSG_SAME(cl_r[q], jac[k * a_nd + j])) found = true;
+    __CPROVER_assert(found, "L10b-grid the entry (output k, dimension j) holds the product of its canonical value and the rate of dimension j");
+  }
+  for (int q = 0; q < 2 * CH_N; q++) if (q >= a_nd * a_no) __CPROVER_assert(TSG_SAME(jac[q], in[q]), "L10b-grid nothing beyond the outputs x dimensions entries is written");
+  __CPROVER_assert(0, "VACUITY-CANARY");
+}
